@@ -2363,7 +2363,11 @@ fn c20(g: &Group, obs: &[Obs]) -> Option<String> {
         let what = format!("{} (policy {policy}, {}, {}, stdout {:?})", c.id, if noisy { "noisy input" } else { "clean input" }, if bad_config { "invalid configuration" } else { "valid configuration" }, kind);
         let err_text = String::from_utf8_lossy(&run.err).chars().take(200).collect::<String>();
         // ---- exit status
-        let must_fail = bad_config || (policy == "panic" && noisy) || (kind != StdoutKind::Pipe && wrote_something && !lib_rejected);
+        // (a report that --on-error=stdout has to write is output too: it cannot go to a stdout that fails — said from the case
+        //  alone, not from what the library entry point did with its in-memory stream)
+        let report_due = policy == "stdout" && noisy && !bad_config && c.spec.take.is_none();
+        let must_fail = bad_config || (policy == "panic" && noisy) || (kind != StdoutKind::Pipe && wrote_something && !lib_rejected)
+            || (kind == StdoutKind::Full && report_due);
         let must_succeed = !bad_config && !noisy && kind == StdoutKind::Pipe;
         if must_fail && code == 0 {
             return Some(format!("{what}: the run failed but the exit status is 0 (stderr: {err_text:?})"));
